@@ -32,6 +32,7 @@ class ClassProgram:
         self.main = []           # statements of main
         self.expected = []       # expected echo lines
         self.static_count = [0] * self.depth
+        self.actions = []        # the same main as action codes of the Lean object model (Driver.ObjCmd)
         self.known_overload_case = False
         self._build_classes()
         self._build_main()
@@ -130,25 +131,31 @@ class ClassProgram:
                 e.pop()
                 n = int(m[-1].split("churn(")[1].split(")")[0])
                 e.append("g(int)%d" % n)
+                self.actions.append("ch,%d,%d" % (a, n))
             m.append("C%d %s = new C%d(%d);" % (stat, v, dyn, a))
             e += self._ctor_trace(dyn, a)
+            self.actions.append("n,%d,%d,%d,%d" % (j, stat, dyn, a))
             for _ in range(r.randrange(1, 4)):
                 act = r.random()
                 if act < 0.35:
                     m.append("%s.who();" % v)
                     e += self._who_trace(self._who_impl_class(dyn))
+                    self.actions.append("w,%d" % j)
                 elif act < 0.55:
                     m.append("%s.call();" % v)
                     e.append("call")
                     e += self._who_trace(self._who_impl_class(dyn))
+                    self.actions.append("c,%d" % j)
                 elif act < 0.7:
                     m.append("echo(%s.getf());" % v)
                     e.append(str(self.cls[0]["field"]))
+                    self.actions.append("f,%d" % j)
                 elif act < 0.75:
                     # unqualified static in a base method names the base's slot, whatever the receiver's class
                     m.append("echo(%s.bump());" % v)
                     self.static_count[0] += 100
                     e.append(str(self.static_count[0]))
+                    self.actions.append("b,%d" % j)
                 elif act < 0.88:
                     arg = r.choice(["1", "2.5f", "\"s\"", v])
                     if arg == v:
@@ -162,10 +169,13 @@ class ClassProgram:
                         exp = {"1": "g(int)", "2.5f": "g(float)", "\"s\"": "g(string)"}[arg]
                     m.append("echo(k.g(%s));" % arg)
                     e.append(exp)
+                    self.actions.append({"1": "g,i", "2.5f": "g,f", "\"s\"": "g,s"}.get(arg, "g,o,%d" % stat))
                 else:
                     if self.churn:
                         m.append("echo(churn(%d));" % 30)
                         e.append("30")
+                        self.actions.append("ec,30")
+            self.actions.append("d,%d" % j)
             if r.random() < 0.5:
                 m.append("destroy %s;" % v)
                 e += self._dtor_trace(dyn)
@@ -185,6 +195,11 @@ class ClassProgram:
         if order is not None:
             parts = [parts[i] for i in order]
         return "\n".join(parts)
+
+    def model_line(self):
+        hier = ";".join("%d,%d,%d,%d" % (1 if (c["overrides"] or i == 0) else 0, 1 if c["calls_super"] else 0, c["field"], 1 if c["dtor"] else 0)
+                        for i, c in enumerate(self.cls))
+        return "obj %s %s" % (hier, ";".join(self.actions) if self.actions else "-")
 
     def n_decls(self):
         return len(self.decls) + 1
